@@ -495,6 +495,13 @@ def fen_classes(fx, width_ok):
         if norm(b.name).endswith("TryFrom<[std::option::Option<chess::piece::Piece>; Square::N]>>::try_from"):
             # i.try_into::<u8>() for the index of a 64-element array
             return True
+        # a conversion that goes through an in-crate `TryFrom` impl is infallible only while that impl has no `Err` path
+        for cn in sorted(fx.callgraph().get(b.name, ())):
+            cb = fx.body(cn)
+            if cb is None or "TryFrom<" not in cn or not cn.endswith("::try_from"):
+                continue
+            if any(st["k"] == "assign" and st["rv"]["k"] == "agg" and st["rv"].get("variant") == "Err" for _bb, _j, st in cb.stmts()):
+                return False
         return ranks_all_checked(b)
 
     def c_phase_sum(site, fx):
@@ -723,6 +730,8 @@ def rule_tables(fx, rep):
                 d = deep_strip(wcr.expr(rv["ops"][0], expand_named=True, at=bb))
                 l2 = deep_strip(wcr.expr(rv["ops"][1], expand_named=True, at=bb))
                 lit = l2[1] if isinstance(l2, tuple) and l2 and l2[0] == "const" and isinstance(l2[1], str) else None
+                if lit is None and rv["ops"][1].get("k") == "const" and rv["ops"][1].get("ty") == "char" and isinstance(rv["ops"][1].get("int"), int):
+                    lit = chr(rv["ops"][1]["int"])  # the symbols as `char`s
                 if not lit:
                     continue
                 if isinstance(d, tuple) and d[0] == "field" and d[2] in ("king_side", "queen_side") and len(lit) == 1 and lit != "-":
@@ -764,6 +773,8 @@ def rule_tables(fx, rep):
 P = "src/chess/fen/fen_parser.rs"
 W = "src/chess/fen/fen_writer.rs"
 MUTANTS = [
+    {"name": "Board::try_from refuses pawns on the back ranks while the reader still unwraps it (seed C06-8a)", "expect": "C06-CONE",
+     "edits": [("src/chess/board.rs", "        let white_occupancy =\n            white_pawns | white_knights", "        if (pawns & (crate::chess::bitboard::bitboards::RANK_1 | crate::chess::bitboard::bitboards::RANK_8)).any() {\n            return Err(());\n        }\n\n        let white_occupancy =\n            white_pawns | white_knights")]},
     {"name": "reader steps the en-passant target one rank back without a rank check (seed C06-7b)", "expect": "C06-CONE/chess::square::Square::",
      "edits": [("src/chess/fen/fen_parser.rs", "    let halfmove_clock = halfmove_clock.unwrap_or(0);", "    if let Some(target) = en_passant_target {\n        let pushed_pawn = target.backward(player);\n        if !board.pawns(player.other()).contains(pushed_pawn) {\n            return Err(nom::Err::Error(nom::error::Error::new(input, nom::error::ErrorKind::Verify)));\n        }\n    }\n    let halfmove_clock = halfmove_clock.unwrap_or(0);")]},
     {"name": "placement field written into a 64-byte ArrayString (seed C06-7a)", "expect": "C06-WCONE",
